@@ -37,6 +37,10 @@ class Check(PropCheck):
             names = []
             for i in range(n):
                 names.append(rng.choice(['t', 'Taxon_', 'x', 'é', '1', '0.5', 'A;B', 'q(']) + str(i))
+            if rng.random() < 0.15 and n >= 3:
+                base = rng.choice(['x', 'ab', 'T'])
+                fam = [base, base + 'y', 'y' + base, base + base, 'y', base + 'yy', 'yy' + base, base + 'y' + base, 'y' + base + 'y', base * 3, 'yx' + base, base + 'xy']
+                names = fam[:n]
             rng.shuffle(names)
             cells = n * (n - 1) // 2
             f32 = kind.startswith('f32')
@@ -123,6 +127,9 @@ class Check(PropCheck):
             text = mat_text(names2, rows, size, nl=nl)
             if mut == 'blank':
                 text += rng.choice([' ', '\n', '  \n', '\t'])
+            if rng.random() < 0.1:
+                # Unicode White_Space separators (split_whitespace accepts them)
+                text = text.replace('    ', rng.choice(['\u00a0', '\u3000 ', ' \u2003', '\t']), rng.randint(1, 3))
             muts.append((text, square, mut))
         for i, s in enumerate(texts):
             first = s.split('\n')[0]
